@@ -83,6 +83,10 @@ func caseC05(c *Ctx) {
 	}
 	branch := branchSets[c.Pick(3, 1, 1, 1, 1, 1, 1)]
 	op := Op{Kind: "walk", Branch: branch}
+	if branch != nil && c.Chance(1, 4) {
+		op.BranchOnly = []string{"last", "mid"}[c.Draw(2)]
+		branch = effectiveBranch(op)
+	}
 	switch form {
 	case "callback/root":
 		op.FromRoot = true
